@@ -54,10 +54,10 @@ def rand_case(rng, kws):
             w = rng.choice(["x", "Foo", "_a1", "endx", "iff", "class_", "ORd", "tO0", "I", "zz9_"])
             out.append(recase(w) if rng.chance(1, 2) else w)
         elif k < 9:
-            out.append(rng.choice(["0", "12", "3.14", "1e5", "7abc", "0x1F", "9..9", "42."]))
+            out.append(rng.choice(["0", "12", "3.14", "1e5", "7abc", "0x1F", "9..9", "42.", "18446744073709551616", "1e400", "4294967296"]))
         elif k < 12:
             out.append(rng.choice(["(", ")", "[", "]", "{", "}", "*", "/", "%", "@", ".", "=", ",", "<", ">", "+", "-", ":", "&",
-                                   "<<", "<=", "<>", ">>", ">=", "&&", "++", "+=", "--", "-=", ":=", "#", "#65", "#1 "]))
+                                   "<<", "<=", "<>", ">>", ">=", "&&", "++", "+=", "--", "-=", ":=", "#", "#65", "#1 ", "#4294967295", "#4294967296", "#99999999999999999999", "#00000000000000000000065"]))
         elif k < 14:
             q = rng.choice(["'", '"'])
             body = []
